@@ -3,12 +3,15 @@ package server
 // C38 — malformed client input never crashes the proxy.
 
 import (
+	"runtime"
+	"errors"
 	"io"
 	"net"
 	"time"
 
 	"github.com/XiaoMi/Gaea/models"
 	"github.com/XiaoMi/Gaea/mysql"
+	"github.com/XiaoMi/Gaea/parser"
 	"github.com/XiaoMi/Gaea/util"
 	vs "github.com/XiaoMi/Gaea/zz_verifsym"
 )
@@ -184,4 +187,68 @@ func Harness_C38_OtherCommands() {
 		vs.Assert(c.Recycled == 1, "C38/connections-given-back-after-a-malformed-command")
 	}
 	vs.Cover("C38/other-commands-done")
+}
+
+// ---- C38: a failing statement and its metrics (fingerprinting of arbitrary text) ----
+
+type vhC38Logger struct{}
+
+func (vhC38Logger) SetLevel(name, level string) error                           { return nil }
+func (vhC38Logger) Debug(format string, a ...interface{}) (err error)           { return nil }
+func (vhC38Logger) Trace(format string, a ...interface{}) (err error)           { return nil }
+func (vhC38Logger) Notice(format string, a ...interface{}) (err error)          { return nil }
+func (vhC38Logger) Warn(format string, a ...interface{}) (err error)            { return nil }
+func (vhC38Logger) Fatal(format string, a ...interface{}) (err error)           { return nil }
+func (vhC38Logger) Debugx(logID, format string, a ...interface{}) (err error)   { return nil }
+func (vhC38Logger) Tracex(logID, format string, a ...interface{}) (err error)   { return nil }
+func (vhC38Logger) Noticex(logID, format string, a ...interface{}) (err error)  { return nil }
+func (vhC38Logger) Warnx(logID, format string, a ...interface{}) (err error)    { return nil }
+func (vhC38Logger) Fatalx(logID, format string, a ...interface{}) (err error)   { return nil }
+func (vhC38Logger) Close()                                                       {}
+func (vhC38Logger) Dropped(i int) uint64                                         { return 0 }
+
+func vhC38DoQuery(se *SessionExecutor, reqCtx *util.RequestContext, sql string) (*mysql.Result, error) {
+	return nil, errors.New("statement failed")
+}
+func vhC38Timing(s *StatisticManager, namespace string, operation string, startTime time.Time) {}
+func vhC38ErrFp(s *StatisticManager, namespace string, operation string, md5 string)          {}
+func vhC38SlowFp(s *StatisticManager, namespace string, md5 string)                           {}
+func vhC38Md5(s string) string { return "md5" }
+func vhC38SetFp(n *Namespace, md5, fingerprint string)                                         {}
+
+//verif:harness prop=C38 noreplay=1 bounds="(engine-only: the violation looked for is an unrecovered panic in a goroutine, which kills a native test process instead of failing a test) a COM_QUERY whose statement fails (doQuery is replaced by a failing stub), run through the real handleQuery and the real RecordSessionSQLMetrics + mysql.GetFingerprint: statement text = a prefix from {select * from t where id in, x in, select 1, (, '} followed by 0..3 arbitrary symbolic bytes over the characters the fingerprint scanner reacts to; no panic may escape handleQuery or any goroutine it starts (the counters, the general log and the fingerprint cache are no-ops)"
+//verif:mock (*github.com/XiaoMi/Gaea/proxy/server.SessionExecutor).doQuery vhC38DoQuery
+//verif:mock (*github.com/XiaoMi/Gaea/proxy/server.StatisticManager).recordSessionSQLTiming vhC38Timing
+//verif:mock (*github.com/XiaoMi/Gaea/proxy/server.StatisticManager).recordSessionErrorSQLFingerprint vhC38ErrFp
+//verif:mock (*github.com/XiaoMi/Gaea/proxy/server.StatisticManager).recordSessionSlowSQLFingerprint vhC38SlowFp
+//verif:mock (*github.com/XiaoMi/Gaea/proxy/server.Namespace).SetErrorSQLFingerprint vhC38SetFp
+//verif:mock (*github.com/XiaoMi/Gaea/proxy/server.Namespace).SetSlowSQLFingerprint vhC38SetFp
+//verif:mock github.com/XiaoMi/Gaea/mysql.GetMd5 vhC38Md5
+func Harness_C38_FailingQueryMetrics() {
+	s := vhSessSetup(false, false, false)
+	s.cc.manager.statistics = &StatisticManager{generalLogger: vhC38Logger{}}
+	s.cc.c.capability = 0
+	prefix := []string{"select * from t where id in ", "x in ", "select 1", "(", "'"}[vs.Choice("prefix", 5)]
+	tail := vs.Bytes("tail", vs.IntRange("tailLength", 0, 3))
+	for i := range tail {
+		ok := false
+		for _, a := range []byte{')', '(', ' ', '\'', '"', ',', ';', '#', '-', '/', '*', '\\', '1', 'a', '\n'} {
+			ok = vs.Or(ok, tail[i] == a)
+		}
+		vs.Assume(ok)
+	}
+	sql := prefix + string(tail)
+	reqCtx := util.NewRequestContext()
+	reqCtx.SetStmtType(parser.Preview(prefix)) // what doQuery records before it fails
+	func() {
+		defer func() {
+			if recover() != nil {
+				vs.Fail("C38/a-panic-escapes-handleQuery")
+			}
+		}()
+		_, err := s.se.handleQuery(reqCtx, sql)
+		vs.Assert(err != nil, "C38/failing-statement-is-answered-with-an-error")
+	}()
+	runtime.Gosched() // let every goroutine the call started run to its end
+	vs.Cover("C38/failing-query-metrics-done")
 }
